@@ -74,7 +74,7 @@ fn production_value(case: &Case, pi: usize, inh: &[Option<(String, String)>], m:
     let mut exprs = vec![];
     let mut shows = vec![];
     for (i, s) in rhs.iter().enumerate() {
-        if style.skip_mask >> i & 1 == 1 {
+        if style.skipped(i) {
             continue;
         }
         let (e, d) = match s {
@@ -140,7 +140,7 @@ pub fn client_source(case: &Case, i: usize) -> String {
                 Some(v) => format!("{m}::{ty}::{v}"),
                 None => format!("{m}::{ty}"),
             };
-            let used: Vec<usize> = (0..rhs.len()).filter(|k| style.skip_mask >> k & 1 == 0).collect();
+            let used: Vec<usize> = (0..rhs.len()).filter(|k| !style.skipped(*k)).collect();
             if used.is_empty() {
                 return (path.clone(), path, String::new());
             }
@@ -178,7 +178,7 @@ pub fn client_source(case: &Case, i: usize) -> String {
             let mut tuple_pos = 0;
             s += &format!("fn access_{name}(x: &{m}::{name}) {{");
             for k in 0..rhs.len() {
-                if style.skip_mask >> k & 1 == 1 {
+                if style.skipped(k) {
                     continue;
                 }
                 let fty = field_type(case, &rhs[k], m);
@@ -295,6 +295,11 @@ fn collect(specs: &[Spec]) -> (Vec<ClientCase>, Vec<Value>) {
                     }
                 }
             }
+            Spec::Scaled { deep } => {
+                for (i, f) in crate::scaled::families(*deep).iter().enumerate() {
+                    add(f.g.clone(), crate::scaled::presentation(f, i), &mut out);
+                }
+            }
             Spec::Names { extra } => {
                 for nc in crate::names::relation_cases(*extra) {
                     if nc.duplicate_fields {
@@ -364,9 +369,9 @@ fn evaluate(cases: &[ClientCase], tag: &str) -> (Vec<Vec<Finding>>, u64, u64, f6
 pub fn run(ctx: &Ctx) -> Outcome {
     let mut out = Outcome::new("exploration");
     let specs: Vec<Spec> = match ctx.tier {
-        Tier::Quick => vec![Spec::PSpace { max_fields: 3, recursion: false }, Spec::Names { extra: 1 }],
+        Tier::Quick => vec![Spec::PSpace { max_fields: 3, recursion: false }, Spec::Names { extra: 1 }, Spec::Scaled { deep: false }],
         Tier::Thorough => {
-            let mut v = vec![Spec::PSpace { max_fields: 3, recursion: true }, Spec::Names { extra: 1 }, crate::gramsweep::g(2, 2, 3, 2)];
+            let mut v = vec![Spec::PSpace { max_fields: 3, recursion: true }, Spec::Names { extra: 1 }, Spec::Scaled { deep: true }, crate::gramsweep::g(2, 2, 3, 2)];
             v.extend(crate::gramsweep::all_seed_nbh(1, 1, 600));
             v
         }
